@@ -392,10 +392,10 @@ class Family:
             ctx.sample(sims[0])
             sp4 = []
             if self.pid != "C23":
-                sp4 = self.generate(4, '{"exec", "init", "get", "begin"}', users='{"rw", "rws"}', ns=0, timeout=1500,
-                                    sample=lambda c: 0.5 if any(x["k"] == "savepoint" for x in c["cmds"]) and
+                sp4 = self.generate(3, '{"exec", "init", "get", "begin", "setac", "sync"}', ns=0, timeout=1500,
+                                    sample=lambda c: 1.0 if any(x["k"] == "savepoint" for x in c["cmds"]) and
                                     any(x["f"]["op"] != "none" for x in c["cmds"]) else 0.0)
-            self.replay(nf4 + sims + sp4, "bfs4nofault+sim6+savepointfault4", 3500)
+            self.replay(nf4 + sims + sp4, "bfs4nofault+sim6+savepointfault3", 3500)
             self.validate_clean(10000)
             self.validate_rejected_sample(12)
         want = ["begin", "commit", "rollback", "setac0", "setac1", "unshard/read", "unshard/write", "unshard/lockread", "unshard/stream", "shard/read",
